@@ -53,24 +53,100 @@ def ir(n, env):
 def translate():
     out = {}
     # ---- HDF5File constructor
+    # Anchored on what is written, not on how locals are called: every
+    #   <dataset member>.dataset.createAttribute("<Unit>", ...).write(type, &X)
+    # is collected; X is followed through the constructor's local `const double` declarations
+    # (by declaration id, so renamed, inlined or additional intermediate locals do not matter).
     docs = ast_of("src/IO/HDF5File.cpp", "vfps::HDF5File::HDF5File")
     decl, body = body_of(docs, "HDF5File")
-    env = {"t_sync": ("var", "t_sync"), "f_rev": ("var", "f_rev"), "c": ("var", "c")}
-    want = ["ax_z_meter", "ax_z_seconds", "ax_E_eVolt", "axis_t_turns"]
+    params = {c["id"]: c.get("name") for c in decl.get("inner", []) if c.get("kind") == "ParmVarDecl"}
+    local_init = {}
     for s in walk(body):
-        if s.get("kind") == "VarDecl" and s.get("name") in want:
+        if s.get("kind") == "VarDecl" and s.get("id"):
             ks = kids(s)
-            if not ks:
-                raise TranslateError("%s without initialiser" % s["name"])
-            e = ir(ks[-1], env)
-            out[s["name"]] = e
-            # later expressions refer to the variable itself (an attribute of its own)
-            env[s["name"]] = ("var", s["name"]) if s["name"] in ("ax_z_meter", "ax_E_eVolt") else e
-    for w in want:
-        if w not in out:
-            raise TranslateError("declaration of %s not found in the HDF5File constructor" % w)
+            local_init[s["id"]] = (s.get("name"), ks[-1] if ks else None)
+
+    def ctor_ir(n, depth=0):
+        """expression of the constructor body; locals are replaced by their initialisers"""
+        if depth > 12:
+            raise TranslateError("local declarations of the HDF5File constructor nest too deeply")
+        n = strip(n)
+        k = n.get("kind")
+        if k == "BinaryOperator":
+            op = {"+": "add", "-": "sub", "*": "mul", "/": "div"}.get(n["opcode"])
+            if not op:
+                raise TranslateError("binary %s" % n["opcode"])
+            a, b = kids(n)
+            return (op, ctor_ir(a, depth), ctor_ir(b, depth))
+        if k == "UnaryOperator" and n.get("opcode") in ("-", "+"):
+            a = ctor_ir(kids(n)[0], depth)
+            return ("neg", a) if n["opcode"] == "-" else a
+        if k == "DeclRefExpr":
+            rd = n.get("referencedDecl") or {}
+            if rd.get("id") in local_init:
+                nm, init = local_init[rd["id"]]
+                if init is None:
+                    raise TranslateError("local %s of the HDF5File constructor has no initialiser" % nm)
+                e = ctor_ir(init, depth + 1)
+                return e
+            if rd.get("id") in params:
+                if params[rd["id"]] in ("t_sync", "f_rev"):
+                    return ("var", params[rd["id"]])
+                raise TranslateError("constructor parameter %s in a unit expression" % params[rd["id"]])
+            if rd.get("name") == "c":
+                return ("var", "c")
+            raise TranslateError("unknown variable %s in a unit expression" % rd.get("name"))
+        return to_ir(n, {}, member_ok=call_atom)
+
+    attr = {}
+    for s in walk(body):
+        if s.get("kind") != "CXXMemberCallExpr":
+            continue
+        callee = kids(s)[0]
+        if callee.get("kind") != "MemberExpr" or callee.get("name") != "write":
+            continue
+        names = [x.get("name") for x in walk(callee) if x.get("kind") == "MemberExpr"]
+        strs = [x.get("value", "").strip('"') for x in walk(callee) if x.get("kind") == "StringLiteral"]
+        if "createAttribute" not in names or "dataset" not in names or len(strs) != 1:
+            continue
+        ds = names[names.index("dataset") + 1] if names.index("dataset") + 1 < len(names) else None
+        arg = strip(kids(s)[-1])
+        if arg.get("kind") != "UnaryOperator" or arg.get("opcode") != "&":
+            raise TranslateError("attribute %s of %s is not written from the address of a variable" % (strs[0], ds))
+        attr.setdefault((ds, strs[0]), []).append(kids(arg)[0])
+    want = {"ax_z_meter": ("_positionAxis", "Meter"), "ax_z_seconds": ("_positionAxis", "Second"),
+            "ax_E_eVolt": ("_energyAxis", "ElectronVolt"), "axis_t_turns": ("_timeAxis", "Turn")}
+    for w, key in want.items():
+        if key not in attr:
+            raise TranslateError("attribute %s of %s is no longer written in the HDF5File constructor" % (key[1], key[0]))
+        if len(attr[key]) != 1:
+            raise TranslateError("attribute %s of %s is written %d times" % (key[1], key[0], len(attr[key])))
+        out[w] = ctor_ir(attr[key][0])
     if out["ax_z_meter"] != ("var", "scale0") or out["ax_E_eVolt"] != ("var", "scale1"):
         raise TranslateError("axis scales are no longer getScale(0,Meter)/getScale(1,ElectronVolt)")
+    # the attributes that repeat a unit on another dataset must carry the same expression
+    import random
+    rnd = random.Random(7)
+    same = {("_bunchLength", "Meter"): "ax_z_meter", ("_bunchPosition", "Meter"): "ax_z_meter",
+            ("_bunchLength", "Second"): "ax_z_seconds", ("_bunchPosition", "Second"): "ax_z_seconds",
+            ("_energySpread", "ElectronVolt"): "ax_E_eVolt", ("_energyAverage", "ElectronVolt"): "ax_E_eVolt",
+            ("_timeAxisPS", "Turn"): "axis_t_turns"}
+    for key, w in same.items():
+        if key not in attr or len(attr[key]) != 1:
+            raise TranslateError("attribute %s of %s is not written exactly once" % (key[1], key[0]))
+        e = ctor_ir(attr[key][0])
+        for _ in range(4):
+            pt = {v: Fraction(rnd.randint(2, 97), rnd.randint(2, 89)) for v in ("scale0", "scale1", "c", "t_sync", "f_rev")}
+            if ir_eval(e, pt) != ir_eval(out[w], pt):
+                raise TranslateError("attribute %s of %s differs from the one of %s" % (key[1], key[0], want[w][0]))
+    # the "Second" attribute is printed as a function of the "Meter" attribute (an attribute of its own)
+    def rename(e):
+        if e == ("var", "scale0"):
+            return ("var", "ax_z_meter")
+        if e[0] in ("num", "var"):
+            return e
+        return (e[0],) + tuple(rename(x) for x in e[1:])
+    out["ax_z_seconds"] = rename(out["ax_z_seconds"])
     # ---- ElectricField constructor with the mem-initialisers
     docs = ast_of("src/PS/ElectricField.cpp", "vfps::ElectricField::ElectricField")
     ctor = None
